@@ -31,9 +31,28 @@ CODECS = {'gzip': z, 'zstd': zstd}
 KINDS = ['zero', 'text', 'rand', 'mixed']
 
 
+INPUT = ['bytes']       # how the chunks are handed over (set per case): bytes, bytearray, memoryview; 'nested' = subscribed and fed
+                        # from inside another observable's callback (a running scheduler trampoline) through a live Subject
+
+
 def compress(codec, chunks, ctx):
-    r = drive.collect(rx.from_(chunks).pipe(CODECS[codec].compress()))
-    H.require_clean(r, codec + ' compress', **ctx)
+    kind = INPUT[0]
+    if kind == 'nested':
+        from rx.subject import Subject
+        box = []
+
+        def run(_):
+            src = Subject()
+            box.append(drive.collect(src.pipe(CODECS[codec].compress())))
+            for c in chunks:
+                src.on_next(c)
+            src.on_completed()
+        rx.from_([0]).subscribe(on_next=run)
+        r = box[0]
+    else:
+        conv = {'bytes': bytes, 'bytearray': bytearray, 'memoryview': memoryview}[kind]
+        r = drive.collect(rx.from_([conv(c) for c in chunks]).pipe(CODECS[codec].compress()))
+    H.require_clean(r, codec + ' compress (%s input)' % kind, **ctx)
     return r.items
 
 
@@ -50,6 +69,7 @@ def reference_decompress(codec, data):
 
 
 def check_roundtrip(case):
+    INPUT[0] = case.get('input', 'bytes')
     codec = case['codec']
     chunks = [make_chunk(s) for s in case['chunks']]
     ctx = {'codec': codec, 'chunks': case['chunks'], 'cuts': case['cuts']}
@@ -80,7 +100,7 @@ def check_roundtrip(case):
         if b''.join(r.items) != original:
             raise Violation('%s round trip differs (%s)' % (codec, mode), got_len=len(b''.join(r.items)), want_len=len(original), **ctx)
     parts = rechunk(comp, case['cuts'])
-    labels = [codec, 'in_chunks=%d' % min(len(chunks), 4), 'kinds:' + '+'.join(sorted({s[1] for s in case['chunks']})) if chunks else 'empty-list']
+    labels = ['input:' + case.get('input', 'bytes'), codec, 'in_chunks=%d' % min(len(chunks), 4), 'kinds:' + '+'.join(sorted({s[1] for s in case['chunks']})) if chunks else 'empty-list']
     if any(len(p) == 0 for p in parts):
         labels.append('empty-compressed-chunk')
     if parts and len(parts[-1]) == 0:
@@ -93,6 +113,7 @@ def check_roundtrip(case):
 
 
 def check_truncate(case):
+    INPUT[0] = 'bytes'
     codec = case['codec']
     chunks = [make_chunk(s) for s in case['chunks']]
     ctx = {'codec': codec, 'chunks': case['chunks']}
@@ -193,7 +214,8 @@ def rt_case(draw):
         chunks = chunks[:2] + [[draw(st.sampled_from([300000, 524288, 600000, 1200000])), 'rand', draw(st.integers(0, 999))] for _ in range(draw(st.integers(2, 3)))]
     if big and draw(st.integers(0, 5)) == 0:
         chunks = chunks[:2] + [[5000000, 'zero', 0]]      # a few KB of compressed bytes that expand to 5 MB
-    return {'codec': draw(st.sampled_from(['gzip', 'zstd'])), 'chunks': chunks, 'cuts': sorted(cuts)}
+    return {'codec': draw(st.sampled_from(['gzip', 'zstd'])), 'chunks': chunks, 'cuts': sorted(cuts),
+            'input': draw(st.sampled_from(['bytes', 'bytes', 'bytearray', 'memoryview', 'nested']))}
 
 
 @st.composite
